@@ -5,11 +5,11 @@ CONSTANTS
   LcStart <- LcStartVal
   W = 2
   D = 2
-  MaxMsgs = 3
-  RxDeltas <- RxBack
-  Delays <- DelaysFull
-  CtrlDelays = {5}
-  IndexMode = "pos"
+  MaxMsgs = 4
+  RxDeltas = {0, 3}
+  Delays = {0, 2}
+  CtrlDelays = {}
+  IndexMode = "mod2"
   Record = TRUE
 INVARIANTS EmitScn
 CHECK_DEADLOCK FALSE
